@@ -5,8 +5,8 @@
    Objects arrive in a sparse form (only members that hold something); [dense] aligns them with the
    class table, [sparse_ok] refuses a member name the table does not have. *)
 From Coq Require Import String Ascii List Bool Arith NArith.
-From Verif Require Import Base.Str Base.Run Base.Xml Base.ClassTable C12.Model C12.Spec.
-From VerifGen Require Import ClassTables C12Vocab.   (* C12Vocab: only so that make builds it for the case files *)
+From Verif Require Import Base.Str Base.Run Base.Xml Base.ClassTable C12.Model C12.Spec C12.Xsd.
+From VerifGen Require Import ClassTables C12Vocab C12Schema.   (* C12Vocab: only so that make builds it for the case files *)
 Import ListNotations.
 Open Scope string_scope.
 Open Scope list_scope.
@@ -17,6 +17,10 @@ Inductive sobj : Type :=
 
 Section Corr.
   Variable T : table.
+  Variable X : xsd_table.    (* ranks of the child element names, from the XML Schema files (C12/Xsd.v) *)
+
+  (* schema order as the library's table has it AND as the schema files have it *)
+  Definition in_order (c : N) (t : tree) : bool := ordered_b T c t && xsd_ordered_b T X c t.
 
   Fixpoint dense (s : sobj) : obj :=
     match s with
@@ -100,7 +104,7 @@ Section Corr.
   Definition stable_b (c : N) (r : pres) (t2 : option tree) (r2 : pres) (same23 : bool) : bool :=
     match r with
     | POk s => canonical_b T (dense s) && same_obj r2 (dense s) && same23
-               && match t2 with Some t2' => ordered_b T c t2' | None => false end
+               && match t2 with Some t2' => in_order c t2' | None => false end
     | _ => true
     end.
 
@@ -108,7 +112,7 @@ Section Corr.
     match k with
     | RT c o_in t1 r1 t2 same12 r2 same23 =>
         let o := dense o_in in
-        (negb (canonical_b T o) || (same_obj r1 o && same12 && ordered_b T c t1)) && stable_b c r1 t2 r2 same23
+        (negb (canonical_b T o) || (same_obj r1 o && same12 && in_order c t1)) && stable_b c r1 t2 r2 same23
     | DOC c t r t2 r2 same23 =>
         match r with
         | POk s => tag_is T c (t_tag t) && nd_b T c t (dense s) && stable_b c r t2 r2 same23
@@ -155,13 +159,16 @@ Section Corr.
     match k with
     | RT c o_in t1 r1 t2 same12 r2 same23 =>
         (Some (ser T (dense o_in)), mparse c t1, canonical_b T (dense o_in),
-         match r1 with POk s => Some (dense s) | _ => None end)
+         match r1 with POk s => Some (dense s) | _ => None end,
+         (* order by the library's table / by the schema files: first and second serialisation *)
+         (ordered_b T c t1, xsd_ordered_b T X c t1, match t2 with Some t => in_order c t | None => true end))
     | DOC c t r t2 r2 _ =>
         (None, mparse c t, match r with POk s => nd_b T c t (dense s) | _ => true end,
-         match r with POk s => Some (dense s) | _ => None end)
-    | IMPL _ | IMPLF _ _ => (None, MNone, true, None)
+         match r with POk s => Some (dense s) | _ => None end,
+         (true, true, match t2 with Some t => in_order c t | None => true end))
+    | IMPL _ | IMPLF _ _ => (None, MNone, true, None, (true, true, true))
     end.
 End Corr.
 
-Definition run := run_cases (agrees live_table) (holds live_table) (cls live_table).
-Definition explain_live := explain live_table.
+Definition run := run_cases (agrees live_table) (holds live_table live_xsd) (cls live_table).
+Definition explain_live := explain live_table live_xsd.
